@@ -413,6 +413,10 @@ func TestCQRSDispatch(t *testing.T) {
 				msg = pm.Copy()
 				if it.Kind == 2 {
 					msg.Payload = append([]byte(nil), ti.malformed...)
+					if !useProto && rapid.Bool().Draw(t, "validDocumentPlusTrailingData") {
+						// a complete valid document followed by something else is malformed as a whole
+						msg.Payload = append(append([]byte(nil), pm.Payload...), []byte(rapid.SampledFrom([]string{"}", " x", "{}", "\x00", "null"}).Draw(t, "trailing"))...)
+					}
 				}
 			case 3:
 				msg = message.NewMessage("foreign", []byte("whatever"))
